@@ -24,7 +24,7 @@ TRUSTED_BASE = [
     "pyvc symbolic executor (AST -> z3 VC generator, /verif/pyvc): Python semantics of the supported subset as stated in DESIGN.md §2.2-2.3",
     "A1: float/np.float64 arithmetic treated as exact real arithmetic (no rounding, overflow, NaN) except numpy-scalar division by zero",
     "A3: library contracts for numpy/scipy/math/time in pyvc/npmodel.py, pyvc/matmodel.py (sanity-checked natively, not proved)",
-    "z3 5.1.0 (primary), cvc5 (fallback on unknown)",
+    "z3 5.1.0 (Python API, incremental; command-line build on the cone of influence), z3 4.8.12 (/usr/bin/z3: full query and a small-scope strengthening whose `sat` answers only are used), cvc5 1.0.3 (fallback on unknown); Lean 4.33 for the lemma files",
     "universal facts are ground-instantiated on index terms (sound, incomplete)",
 ]
 
